@@ -156,5 +156,7 @@ def run_cascade(repo, dst_name):
         return ('rejected', type(err).__name__)
     except exc.InternalException as err:
         return ('rejected', type(err).__name__)
+    except Exception as err:
+        return ('crashed', type(err).__name__)
     return ('ok', [b.name for b in c.dst_branches],
             list(c.ignored_branches), list(c.target_versions), c)
